@@ -105,6 +105,12 @@ Definition spec_event_types : list (str * list str) := [
   (s!"ruma_events::EphemeralRoomEventType",
    [s!"m.receipt"; s!"m.typing"]) ].
 
+(** legacy names that must keep reading as their standard event type (the pre-standard VoIP name still sent
+    by older clients): (enumeration, legacy name, standard name) *)
+Definition spec_aliases : list (str * str * str) := [
+  (s!"ruma_events::MessageLikeEventType", s!"org.matrix.call.sdp_stream_metadata_changed", s!"m.call.sdp_stream_metadata_changed");
+  (s!"ruma_events::TimelineEventType", s!"org.matrix.call.sdp_stream_metadata_changed", s!"m.call.sdp_stream_metadata_changed") ].
+
 Fixpoint find_decl_named (l : list decl) (name : str) : option decl :=
   match l with
   | [] => None
@@ -132,6 +138,17 @@ Definition spellings_ok (decls : list decl) (e : str * list str) : bool :=
   end.
 
 Definition all_specified_dedicated (decls : list decl) : bool := forallb (spellings_ok decls) spec_spellings.
+Definition alias_ok (decls : list decl) (e : str * str * str) : bool :=
+  match e with
+  | (name, legacy, standard) =>
+      match find_decl_named decls name with
+      | Some d => value_eqb (from_str d legacy) (from_str d standard) && str_eqb (as_str d (from_str d legacy)) standard
+                  && dedicated_spelling d standard
+      | None => false
+      end
+  end.
+Definition all_aliases_ok (decls : list decl) : bool := forallb (alias_ok decls) spec_aliases.
+
 Definition all_event_types_dedicated (decls : list decl) : bool := forallb (spellings_ok decls) spec_event_types.
 
 Definition failing (decls : list decl) : list (str * list str) :=
